@@ -23,7 +23,7 @@ ASSUMPTIONS = ['floor-based integer bin arithmetic is the specification: window 
                'a bin is "inside the contig" when start>=0 and end<=contig length (the documented --keepOverBounds rule)']
 MIN_NONTRIVIAL = {'quick': 2000, 'thorough': 50000}
 REQUIRED_MONITORS = ['call:bamToCountTable.coordinate_to_bins', 'call:utils.binning.coordinate_to_bins',
-                     'hook:coordinate_to_bins_during_table', 'table:cells_compared', 'history:two_files_one_call', 'history:same_args_second_call', 'option:splitFeatures_with_bin', 'option:bin_tag_is_the_only_feature']
+                     'hook:coordinate_to_bins_during_table', 'table:cells_compared', 'history:two_files_one_call', 'history:same_args_second_call', 'option:splitFeatures_with_bin', 'option:bin_tag_is_the_only_feature', 'lib:contig_shorter_than_one_bin']
 EXHAUSTIVE = {'quick': True, 'thorough': True}
 
 
@@ -134,6 +134,10 @@ def run_table(case, acc, b2c):
     bintag = r.choice(['DS', 'DS', 'xs', 'reference_start'])
     refs = [(f'chr{j + 1}', r.choice([b * r.randint(1, 12), b * r.randint(1, 12) + r.randint(1, b), r.randint(20, 3000)]))
             for j in range(r.randint(1, 3))]
+    if case['i'] % 3 == 2 and b >= 4:
+        # a contig shorter than one bin (chrM, unplaced scaffolds with large bins): with keepOverBounds its reads are kept in the over-bounds bin
+        refs.append(('chrTiny', r.randint(2, b - 1)))
+        acc.count('lib:contig_shorter_than_one_bin')
     cells = [f'LIB_{j}' for j in range(r.randint(1, 4))]
     # history: several alignment files in one call, or the same args namespace used for a second call; the files name the same
     # contigs with different lengths (two assemblies / a trimmed reference) and every read is judged by the length in its own file
